@@ -228,7 +228,15 @@ func (w *world) step(o hx.T) (any, error) {
 			return nil, err
 		}
 		w.dead[o.Int(0)] = true
-		return "BUnit", nil
+		view, ok := n.CloseView(c.NetId)
+		if !ok {
+			return nil, fmt.Errorf("c10: no (or inconsistent) OnClose view for connection %d", c.NetId)
+		}
+		m, err := w.mapTerm(view)
+		if err != nil {
+			return nil, err
+		}
+		return hx.C("BClosed", hx.AsTerm(m).Args[0]), nil
 	case "OFrontSet":
 		c := w.live(o.Int(0))
 		if c == nil {
@@ -293,6 +301,32 @@ func (w *world) step(o hx.T) (any, error) {
 			net = t
 		}
 		return hx.C("BFwd", e2e.InstOf(r.Svc), hx.C("VStr", strTok(r.Uid)), hx.C("VStr", strTok(r.Front)), net), nil
+	case "OForwardKeep":
+		sid := o.Int(0)
+		c := w.live(sid)
+		if c == nil {
+			return "BIgnored", nil
+		}
+		ev, err := w.call(c, "room.h.keep", map[string]any{"T": 1, "H": o.Int(1)})
+		if err != nil {
+			return nil, err
+		}
+		if ev.Err {
+			return "BFwdNone", nil
+		}
+		var r e2e.Reply
+		if err := json.Unmarshal(ev.Data, &r); err != nil {
+			return nil, err
+		}
+		net := int64(-1)
+		if t, ok := w.tokOf[r.NetId]; ok {
+			net = t
+		}
+		// the handler stores the session after answering: let it finish that turn
+		if err := n.Settle(); err != nil {
+			return nil, err
+		}
+		return hx.C("BFwd", e2e.InstOf(r.Svc), hx.C("VStr", strTok(r.Uid)), hx.C("VStr", strTok(r.Front)), net), nil
 	case "OBackNew":
 		b, sid := o.Int(0), o.Int(1)
 		if n.HasBack(b) {
@@ -339,6 +373,7 @@ func (w *world) step(o hx.T) (any, error) {
 			return "BIgnored", nil
 		}
 		var steps []e2e.ScriptStep
+		kicks := false
 		for _, a := range o.List(1) {
 			t := hx.AsTerm(a)
 			switch t.Name {
@@ -348,8 +383,19 @@ func (w *world) step(o hx.T) (any, error) {
 				steps = append(steps, e2e.ScriptStep{Kind: "push"})
 			case "AQuery":
 				steps = append(steps, e2e.ScriptStep{Kind: "query"})
+			case "AKick":
+				steps = append(steps, e2e.ScriptStep{Kind: "kick"})
+				kicks = true
 			default:
 				return nil, fmt.Errorf("c10: bad act %s", t.Name)
+			}
+		}
+		net := n.BackNetId(o.Int(0))
+		wasLive := false
+		if kicks {
+			var e error
+			if wasLive, e = n.HasSession(net); e != nil {
+				return nil, e
 			}
 		}
 		acks, err := n.BackScript(o.Int(0), steps)
@@ -359,6 +405,24 @@ func (w *world) step(o hx.T) (any, error) {
 		l := []any{}
 		for _, a := range acks {
 			l = append(l, a)
+		}
+		if kicks && wasLive {
+			// the connection was kicked: it is removed after the script's messages
+			if err := n.WaitRemoved(net); err != nil {
+				return nil, err
+			}
+			if t, ok := w.tokOf[net]; ok {
+				w.dead[t] = true
+			}
+			view, ok := n.CloseView(net)
+			if !ok {
+				return nil, fmt.Errorf("c10: no (or inconsistent) OnClose view for connection %d", net)
+			}
+			m, err := w.mapTerm(view)
+			if err != nil {
+				return nil, err
+			}
+			return hx.C("BAcksClosed", l, hx.AsTerm(m).Args[0]), nil
 		}
 		return hx.C("BAcks", l), nil
 	case "OBackPush", "OBackQuery":
@@ -411,7 +475,7 @@ func Exec(n *e2e.Node, ops []hx.T) (obs []any, nontrivial bool, err error) {
 		}
 		switch t := b.(type) {
 		case hx.T:
-			if t.Name == "BMap" || t.Name == "BFwd" || (t.Name == "BVal" && hx.AsTerm(t.Args[0]).Name == "Some") {
+			if t.Name == "BMap" || t.Name == "BFwd" || t.Name == "BClosed" || t.Name == "BAcksClosed" || (t.Name == "BVal" && hx.AsTerm(t.Args[0]).Name == "Some") {
 				nontrivial = true
 			}
 		}
@@ -431,9 +495,6 @@ func Run(cfg *hx.Config) error {
 		note := ""
 		if b, ok := err.(*broken); ok {
 			nbroken++
-			if nbroken > 5 {
-				return fmt.Errorf("case %d (%s): %v (giving up after %d broken cases)", cfg.Emitted(), kind, err, nbroken)
-			}
 			note = b.Error()
 		} else if err != nil {
 			return fmt.Errorf("case %d (%s): %v", cfg.Emitted(), kind, err)
@@ -454,11 +515,16 @@ func Run(cfg *hx.Config) error {
 		return nil
 	}
 	for _, ops := range fixedCases() {
+		if nbroken >= 4 {
+			break
+		}
 		if err := emit("fixed", ops, nil); err != nil {
 			return err
 		}
 	}
-	for i := 0; i < cfg.N; i++ {
+	for i := 0; i < cfg.N && nbroken < 4; i++ {
+		// (a case in which the implementation stopped answering costs a time-out; after a few
+		// of them the run ends early - what was emitted is reported and shrunk as usual)
 		ops, tags := gen(cfg, i)
 		if err := emit("random", ops, tags); err != nil {
 			return err
